@@ -536,6 +536,10 @@ def stepSelect (st : State) (toks : List String) : State × String :=
   -- lowest-load selector: the first node of the load-ratio order that is a candidate
   let pick : List Nat → Nat := fun cs => ((prio.find? (cs.contains ·)).getD (cs.headD 0))
   match toks with
+  | "sel.round" :: _ =>
+    -- a rebalancing round of the real scheduler: which servers it picks is a matter of load and tie-breaks; the
+    -- harness marks its answer as not comparable and checks the property on it
+    (st, "ok")
   | "sel.ens" :: _ =>
     (st, match Select.selectEnsemble Facts.antiAffinityFirstRuleUnion Facts.selectorRefusesWhenNoCandidate ctx pick with
       | .ok e => "ok " ++ showNatList e
